@@ -6,7 +6,7 @@
 
   DOMAIN.  `UniqInv` (Spec/Unique.lean): no two documents covered by a unique index have equal
   keys.  It is stated where indexed paths run through sub-documents to scalars (`ScalarInv`;
-  outside lie the known findings `multikey`, `deadend-null`: `step_uniq_inv_full_fails`).  On
+  outside lie the known findings `multikey`, `operator-like-value`: `step_uniq_inv_full_fails`).  On
   that domain EVERY operation preserves `UniqInv`, with no further hypothesis
   (`step_uniq_inv_partial`), and so does every history (`reachable_uniq_partial`).
 
@@ -32,18 +32,20 @@ def step_uniq_inv_full : Prop :=
   ∀ (cfg : Cfg) (now : Int) (c : Coll) (op : Val), UniqInv c → UniqInv (stepColl cfg now c op).1
 
 /-- The unrestricted statement is FALSE of the code.  Witness (closed, evaluated in the kernel;
-    `Proofs.C06Lemmas.cexColl`, `cexOp`): unique index on `a.b`, document `{_id: 1, b: 1}` (no
-    `a.b`: key null), `insert_one({_id: 2, a: ""})` — no `a.b` either, but the look-up
-    `{a.b: null}` of `_ensure_uniques` does not match a path that runs into a scalar, and the
-    insert is accepted (known finding `deadend-null`, the matcher's dead-end defect of C01).
-    Array-valued keys (known finding `multikey`) lie outside `ScalarInv` as well. -/
+    `Proofs.C06Lemmas.cexColl`, `cexOp`): unique index on `a`, document
+    `{_id: 1, a: {$size: "x"}}`, `insert_one({_id: 2, a: {$size: "x"}})` — the same key, but the
+    look-up `{a: {$size: "x"}}` of `_ensure_uniques` reads the stored value as the operator
+    `$size`, matches nothing, and the insert is accepted (known finding `operator-like-value`).
+    Array-valued keys (known finding `multikey`) lie outside `ScalarInv` as well.  (The former
+    witness — a dotted index path dead-ending in a scalar, finding `deadend-null` — was repaired
+    together with the matcher.) -/
 theorem step_uniq_inv_full_fails : ¬ step_uniq_inv_full := Proofs.C06.step_uniq_inv_full_false
 
 /-- **Every operation preserves uniqueness** — whatever write path is taken (insert, insert_many,
     update, replacement, upsert; the "modified" and the "unchanged by `==`" branch of an update),
     successful or rejected, and for delete, the reads, index creation and removal — PROVIDED the
     resulting collection is in the scalar-key domain (`ScalarInv`; excluded: known findings
-    `multikey`, `deadend-null`).
+    `multikey`, `operator-like-value`).
     Nothing is assumed of the documents BEFORE the operation (not even `ScalarInv c`), of the
     store keys, of the partial filters, nor of the operation. -/
 theorem step_uniq_inv_partial (cfg : Cfg) (now : Int) (c : Coll) (op : Val)
@@ -284,15 +286,15 @@ def stepX_uniq_inv_full : Prop :=
   ∀ (cfg : Cfg) (now : Int) (c : Coll) (op : Val), UniqInv c → UniqInv (stepX cfg now c op).1
 
 /-- It is FALSE of the code, for the reason `step_uniq_inv_full` is (known finding
-    `deadend-null`): the witness of `step_uniq_inv_full_fails`, issued as
-    `bulk_write([InsertOne({_id: 2, a: ""})])`. -/
+    `operator-like-value`): the witness of `step_uniq_inv_full_fails`, issued as
+    `bulk_write([InsertOne({_id: 2, a: {$size: "x"}})])`. -/
 theorem stepX_uniq_inv_full_fails : ¬ stepX_uniq_inv_full := Proofs.C06Ext.stepX_uniq_false
 
 /-- **Every modelled operation preserves uniqueness** — the basic ones, `find_one`,
     `find_one_and_update / _replace / _delete` (with or without upsert, sort, projection,
     `after`), `bulk_write` (ordered or not, whatever requests fail, aborted or not) and a bulk
     builder executed any number of times — PROVIDED the resulting collection is in the
-    scalar-key domain (`ScalarInv`; excluded: known findings `multikey`, `deadend-null`).
+    scalar-key domain (`ScalarInv`; excluded: known findings `multikey`, `operator-like-value`).
     Nothing is assumed of the collection before, of the collections between the requests of a
     bulk, nor of the operation. -/
 theorem stepX_uniq_inv_partial (cfg : Cfg) (now : Int) (c : Coll) (op : Val)
